@@ -355,6 +355,15 @@ def handle (j : Json) : Except String Json := do
     match Bench.write (← circuitOfJson (← j.getObjVal? "c")) ord with
     | .ok t => pure (respond .ok [("text", jstr t)])
     | .error e => pure (respond e [])
+  | "verilog_read" =>
+    let bbs ← (← (← j.getObjVal? "bbs").getArr?).toList.mapM (fun x => do bboxOfJson (← x.getArr?) 0)
+    match Verilog.read (← (← j.getObjVal? "text").getStr?) (← (← j.getObjVal? "name").getStr?) bbs ord with
+    | .ok c => pure (respond .ok [("c", circuitToJson c)])
+    | .error e => pure (respond e [])
+  | "verilog_write" =>
+    match Verilog.write (← circuitOfJson (← j.getObjVal? "c")) (getBoolD j "behavioral" false) ord with
+    | .ok t => pure (respond .ok [("text", jstr t)])
+    | .error e => pure (respond e [])
   | "ord" =>
     pure (respond .ok [("r", jarr jstr (ord (getStrListD j "l")))])
   | _ => throw s!"unknown op {op}"
